@@ -9,7 +9,8 @@ CHECKS = {
  "C01": ("model_checking",
          "TLC checks finality safety exhaustively on the fork-tree model LiskBFTTree (3-4 validators, <=9-10 blocks, <=2 leaves, Byzantine weight <1/3, "
          "optional parameter change); sampled full trees are replayed through the real liskbft.Module, every block's vote state compared with the spec and "
-         "safety asserted on the real block ids and precommitted heights.",
+         "safety asserted on the real block ids and precommitted heights. The counting rules are additionally bound by a validated LiskBFT trace with parameter changes, and at system level Net.tla "
+         "(honest nodes: forging, LIP-0014 fork choice cascade, tie break, fast sync; Agreement, TreeSafety, HonestNoContra checked by TLC) is replayed on a network of real nodes over loopback: finalized prefixes of all nodes agree on real block ids.",
          "Bounded model, no unbounded proof; slots abstracted; hash collision freeness; my transcription of LIP-0058 is bound to the code by the replay.",
          "TLA+ fork-tree model checked by TLC + spec-to-implementation replay of TLC-generated trees", "DESIGN.md section 4 C01"),
  "C02": ("model_checking",
@@ -66,7 +67,7 @@ CHECKS = {
          "Crash.tla models a step as prepare / durable writes / cache update with a crash between any two sub-steps: TLC shows AtomicRecovery for the one-batch shape and a counterexample for a shape with a separate write (control). "
          "On the real node every file-system write/sync operation index of the last step (apply a block / delete the tip, with and without temp block; blocks with transactions, validator change, aggregate commit, finality advance) "
          "of TLC-generated Node scripts is used as a crash point on pebble's strict in-memory file system (unsynced data lost); the database is reopened, the node restarted, and the record (durable effects per key space, recovery invariants: "
-         "height index -> data, consensus store height = tip, diff iff block, finalized <= tip) is validated by CrashTrace.tla.",
+         "height index -> data, consensus store height = tip, diff iff block, finalized <= tip) is validated by CrashTrace.tla. Step kinds: block, delete, delete+temp, restore (re-application of a temporary block with removal of its temporary copy, as after a failed chain switch).",
          "pebble batch atomicity and StrictMem's model of sync are trusted (torn WAL records not modelled); the toy application's state is rebuilt from headers at restart.",
          "crash-point enumeration on the real node over a strict in-memory file system, records validated by a TLA+ trace monitor", "DESIGN.md section 4 C13"),
  "C06": ("model_checking",
@@ -84,13 +85,15 @@ CHECKS = {
  "C04": ("model_checking",
          "Node.tla: TLC checks FinalMonotone, FinalizedIrreversible and FinalSane as action/state properties over valid blocks, LIP-0014 tie breaks, deletes (incl. at or below the finalized height) and restarts (exhaustive with a VIEW for chains <= 5-6 blocks, simulation beyond); "
          "the scripts are replayed on the real Executer comparing the stored finalized height, the finalize events and the refusal to remove or replace finalized tips after every step. Sync scenarios (fast sync, block sync, corrupting and truncating peers, failed sync) on real "
-         "networked nodes are validated by SyncTrace.tla: the finalized height never decreases and the block ids served for finalized heights never change.",
+         "networked nodes are validated by SyncTrace.tla: the finalized height never decreases and the block ids served for finalized heights never change. Reverts down to the finalized height (DeleteDown: what a sync with a chain forking below it attempts) "
+         "are generated and the refusal at the finalized height checked; Net.tla (network of honest nodes) is replayed on real nodes: the stored finalized height per node follows the model and finalized ids are never replaced.",
          "Toy application; 3 validators; scenarios sampled (seeded); invalid tie-break blocks are not generated.",
          "TLC model checking of Node.tla + replay of TLC scripts on the real Executer + TLA+ trace monitor of real sync scenarios", "DESIGN.md section 4 C04"),
  "C19": ("model_checking",
          "Sync.tla: BestPeers as a set of acceptable answers - TLC prints the table for all sequences of <= 4 peer tips (22,620 rows) and the real peer selection is evaluated on every row; HighestCommon / BlocksFrom specify the RPC handler answers, checked by SyncTrace.tla on "
          "calls made over loopback libp2p to a real 113-block node (cap 103 exercised); Outcomes specifies where a node may end after being offered a peer's tip; offer scenarios (own fork vs honest real peer, corrupting or truncating fake peer, near = fast sync, far = block sync, common block below finality) "
-         "run through the real process()/sync path and every outcome is validated.",
+         "run through the real process()/sync path and every outcome is validated. Net.tla composes forging, the fork choice cascade, tie break and fast sync (common block among the sampled heights, not below the finalized height, ban otherwise, broken link after a ban) "
+         "for 3 honest nodes; TLC checks NeverWorse / Agreement exhaustively and its scripts are replayed on 3 real nodes over loopback, the acted-on node compared with the model after every step.",
          "3 validators; toy application; scenarios sampled (seeded); malformed sync requests belong to C09/C18.",
          "TLC-generated selection table + TLA+ trace monitor of real handler calls and real sync scenarios between in-process nodes", "DESIGN.md section 4 C19"),
  "C18": ("model_checking",
